@@ -993,10 +993,14 @@ func c20Contested(log []string) (any, pkg bool) {
 func c20Cls(s *c20Scn, o c20Obs) string {
 	parts := []string{s.Kind}
 	if s.Kind == "steps" {
-		ts := []string{}
+		seen, ts := map[string]bool{}, []string{}
 		for _, st := range s.Steps {
-			ts = append(ts, st.T)
+			if !seen[st.T] {
+				seen[st.T] = true
+				ts = append(ts, st.T)
+			}
 		}
+		sort.Strings(ts)
 		parts = append(parts, strings.Join(ts, "+"))
 	}
 	rs := []string{}
@@ -1020,7 +1024,38 @@ func c20Cls(s *c20Scn, o c20Obs) string {
 	default:
 		parts = append(parts, "cluster=full")
 	}
+	// state of the TLS secrets the steps will look at
+	cas, leaves := c20Leaves((&c20World{}).stepsOf(s))
+	ca, leaf := "none", "none"
+	for _, sec := range s.Store.Secrets {
+		switch {
+		case cas[sec.Name]:
+			switch {
+			case sec.Crt != nil && sec.Key != nil && sec.Crt.T == "c" && sec.Key.T == "k" && sec.Crt.KP == sec.Key.KP:
+				ca = "complete"
+			case sec.Crt != nil && sec.Key != nil && sec.Crt.T == "c" && sec.Key.T == "k":
+				ca = "mismatched"
+			case sec.Crt != nil && sec.Key != nil:
+				ca = "junk"
+			default:
+				ca = "keysMissing"
+			}
+		case len(leaves[sec.Name]) > 0:
+			switch {
+			case sec.Crt != nil && sec.Key != nil && sec.CA != nil:
+				leaf = "complete"
+			case sec.Crt != nil || sec.Key != nil || sec.CA != nil:
+				leaf = "keysMissing"
+			case leaf == "none":
+				leaf = "noKeys"
+			}
+		}
+	}
+	if len(cas) > 0 {
+		parts = append(parts, "ca="+ca, "leaf="+leaf)
+	}
 	forms := map[string]bool{}
+	custom := false
 	for _, im := range o.Imgs {
 		if !im.OK {
 			forms["bad"] = true
@@ -1031,17 +1066,32 @@ func c20Cls(s *c20Scn, o c20Obs) string {
 		if r.Reg != "" {
 			f = "host"
 		}
-		if r.Dig {
-			f += "@"
+		switch {
+		case r.Dig && strings.Contains(c20WrittenName(im.Img), ":") && strings.LastIndex(im.Img[:strings.Index(im.Img, "@")], ":") > strings.LastIndex(im.Img, "/"):
+			f += ":tag@digest"
+		case r.Dig:
+			f += "@digest"
+		case strings.LastIndex(im.Img, ":") > strings.LastIndex(im.Img, "/"):
+			f += ":tag"
 		}
 		forms[f] = true
 	}
-	fs := []string{}
-	for f := range forms {
-		fs = append(fs, f)
+	for _, p := range s.Store.Pkgs {
+		if p.Name != c20DefaultName(p.Raw) {
+			custom = true
+		}
 	}
-	sort.Strings(fs)
-	parts = append(parts, "refs="+strings.Join(fs, "|"))
+	if len(o.Imgs) > 0 {
+		fs := []string{}
+		for f := range forms {
+			fs = append(fs, f)
+		}
+		sort.Strings(fs)
+		parts = append(parts, "refs="+strings.Join(fs, "|"))
+		if custom {
+			parts = append(parts, "customName")
+		}
+	}
 	return strings.Join(parts, "/")
 }
 
@@ -1059,7 +1109,7 @@ func init() {
 			r := c.Rng.Fork()
 			s := c20Gen(r, c.Tier)
 			c20Normalize(s)
-			if c.Tier == "thorough" && i%10 == 0 {
+			if c.Tier == "thorough" && i%40 == 0 {
 				// every fault position x every outcome, each followed by a fault-free run
 				n := c20CountCalls(s)
 				for k := 0; k < n; k++ {
